@@ -59,6 +59,6 @@ META = {
     "C09": _meta("No survivor stays paused or half-stopped; queued mail survives restart; zombie behaviour."),
 }
 
-PROPERTIES["C19"] = {"components": ["actor"], "coq_files": ["Properties/C19_core.v"], "rule": _RULE + "; plus event-stream scenarios: 2-4 subscribers under one parent, two event types, subscribe twice / unsubscribe / unsubscribe-all / publish from actors and racing external callers, subscribers dying (poison or not) and being restarted in between",
-                     "modelled_not_verified": _MNV + ["publication order per publisher at each subscriber follows from per-sender FIFO (C02)"], "monitor_filter": r"^c19-|^c06-subscription-outlives-actor$|^crash$"}
-META["C19"] = _meta("Event stream: table invariants, fan-out = the subscribers at the snapshot, cleanup on death, restart keeps subscriptions.")
+PROPERTIES["C19"] = {"components": ["actor"], "coq_files": ["Properties/C19_core.v", "Properties/C19.v"], "rule": _RULE + "; plus event-stream scenarios: 2-4 subscribers under one parent, two event types, subscribe twice / unsubscribe / unsubscribe-all / publish from actors and racing external callers, subscribers dying (poison or not) and being restarted in between",
+                     "modelled_not_verified": _MNV + ["publication order per publisher at each subscriber: proved on ActorCore (C19_publisher_order, C19_handled_in_pop_order); the FIFO of the real queues is C02"], "monitor_filter": r"^c19-|^c06-subscription-outlives-actor$|^crash$"}
+META["C19"] = _meta("Event stream: table invariants, fan-out = the subscribers at the snapshot, cleanup on death, restart keeps subscriptions (one-step: C19_core.v); over whole histories (C19.v): no entry for a terminated subscriber, nothing published after Unsubscribe / termination is delivered, each snapshot entry exactly one delivery and nobody else, one publisher's events reach a subscriber in publication order.")
